@@ -234,6 +234,72 @@ theorem decode_unknown_entity (pre name post : Bytes) (hpre : 0x26 ∉ pre) (hna
     · rename_i heq; cases heq; exact (hnum rfl).elim
     · rfl
 
+/-- the names of the five contain no `;` and do not start with `#` -/
+theorem five_name_ok (name : Bytes) (b : UInt8) (h : (name, b) ∈ fiveEntities) : 0x3B ∉ name ∧ name.head? ≠ some 0x23 := by
+  simp only [fiveEntities, List.mem_cons, Prod.mk.injEq, List.mem_nil_iff, or_false] at h
+  rcases h with ⟨rfl, rfl⟩ | ⟨rfl, rfl⟩ | ⟨rfl, rfl⟩ | ⟨rfl, rfl⟩ | ⟨rfl, rfl⟩ <;> decide
+
+theorem hash_not_five (body : Bytes) (b : UInt8) : ((0x23 : UInt8) :: body, b) ∉ fiveEntities := by
+  intro h
+  have := (five_name_ok _ b h).2
+  simp at this
+
+/-- completeness of the loop: whatever `Dec` relates, the loop computes -/
+theorem decodeLoop_complete : ∀ (r o : Bytes), Dec r o → ∀ (fuel i : Nat) (acc : Bytes), r.length < fuel →
+    decodeLoop fuel r i acc = .ok (acc ++ o) := by
+  intro r o h
+  induction h with
+  | nil =>
+    intro fuel i acc hf
+    cases fuel with
+    | zero => omega
+    | succ f => simp [decodeLoop]
+  | lit ch r o hch _ ih =>
+    intro fuel i acc hf
+    cases fuel with
+    | zero => omega
+    | succ f =>
+      simp only [decodeLoop, hch, ne_eq, not_false_eq_true, ↓reduceIte]
+      rw [ih f (i + 1) (acc ++ [ch]) (by simp at hf; omega)]
+      simp
+  | named name b r o hmem _ ih =>
+    intro fuel i acc hf
+    cases fuel with
+    | zero => omega
+    | succ f =>
+      obtain ⟨hsemi, _⟩ := five_name_ok name b hmem
+      simp only [List.cons_append, decodeLoop, ne_eq, not_true_eq_false, ↓reduceIte]
+      rw [findByte_append _ name r hsemi]
+      simp only [List.take_left', predefined_of_five name b hmem]
+      have hdrop : (name ++ 0x3B :: r).drop (name.length + 1) = r := by
+        rw [← List.drop_drop]; simp
+      rw [hdrop, ih f _ _ (by simp at hf; omega)]
+      simp
+  | numeric body cp u r o hsemi hcode henc _ ih =>
+    intro fuel i acc hf
+    cases fuel with
+    | zero => omega
+    | succ f =>
+      have hs : (0x3B : UInt8) ∉ (0x23 : UInt8) :: body := by
+        simp only [List.mem_cons, not_or]; exact ⟨by decide, hsemi⟩
+      have hrw : (0x26 : UInt8) :: 0x23 :: body ++ 0x3B :: r = 0x26 :: ((0x23 :: body) ++ 0x3B :: r) := by simp
+      rw [hrw]
+      simp only [decodeLoop, ne_eq, not_true_eq_false, ↓reduceIte]
+      rw [findByte_append _ (0x23 :: body) r hs]
+      simp only [List.take_left']
+      rw [predefined_none_of_not_five _ (hash_not_five body)]
+      have happ : appendCharRef (0x23 :: body) = some u := by
+        unfold appendCharRef; rw [hcode]; exact henc
+      simp only [happ]
+      have hdrop : ((0x23 :: body) ++ 0x3B :: r).drop ((0x23 :: body).length + 1) = r := by
+        rw [← List.drop_drop]; simp
+      rw [hdrop, ih f _ _ (by simp at hf; omega)]
+      simp
+
+theorem decodeEntities_complete (inp out : Bytes) (h : Dec inp out) : decodeEntities inp = .ok out := by
+  have := decodeLoop_complete inp out h (inp.length + 1) 0 [] (by omega)
+  simpa [decodeEntities] using this
+
 /-! ### what a numeric reference denotes -/
 
 theorem forall_u8 {P : UInt8 → Prop} (h : ∀ n, n < 256 → P (UInt8.ofNat n)) : ∀ z, P z := by
